@@ -164,6 +164,28 @@ class Bridge:
                     if isinstance(a, Obj) and i < 2:
                         self.walk(a, b, fn, "%s.%s[%d]" % (where, name, i))
 
+    def pairs(self, obj, real, where=""):
+        """(reference object, real instance, where) for the instance and every nested generated instance."""
+        out = []
+        self.walk(obj, real, lambda inst, cls, names, w: out.append([None, inst, w]))
+        # the reference objects in the same order (walk visits fields in declaration order, arrays up to 2 elements)
+        refs = []
+
+        def visit(o):
+            refs.append(o)
+            for name, ins in self.params(o.cls):
+                mv = o.fields.get(name)
+                if isinstance(mv, Obj):
+                    visit(mv)
+                elif isinstance(mv, (list, tuple)):
+                    for i, a in enumerate(mv):
+                        if isinstance(a, Obj) and i < 2:
+                            visit(a)
+        visit(obj)
+        if len(refs) != len(out):
+            return []
+        return [(r, o[1], o[2]) for r, o in zip(refs, out)]
+
     # ---- comparison
     def compare(self, obj, real, where="", byte_size=False, out=None):
         """Differences between a reference value and a real object, as a list of strings."""
